@@ -94,6 +94,8 @@ func MakeChooser(s Sched) simrt.Chooser {
 	switch parts[0] {
 	case "rtc":
 		return &simrt.RunToCompletion{}
+	case "newest":
+		return &simrt.Newest{}
 	case "rw":
 		p := 0.2
 		if len(parts) > 1 {
